@@ -17,7 +17,8 @@ def conjugation(ctx, res: Result, rel: str, cname: str, inner: str, n_targets: i
     ci = ctx.ix.module(rel).classes.get(cname)
     if ci is None:
         raise AnalysisError(f"{cname} not found")
-    ini = ci.methods["__init__"]
+    from ..inline import with_helpers
+    ini = with_helpers(ctx, ci.methods["__init__"], only_private=True)
     adds = sorted([c for c in walk_no_nested(ini.node) if isinstance(c, ast.Call) and isinstance(c.func, ast.Attribute) and c.func.attr == "add" and isinstance(c.func.value, ast.Name) and c.func.value.id != "self"], key=lambda c: c.lineno)
     seq = [(src(c.args[0]), src(c.args[1]) if len(c.args) > 1 else "0") for c in adds]
     ok = len(seq) == 3 and seq[0][0] == "H()" and seq[2][0] == "H()" and seq[1] == (f"{inner}()", "0") and seq[0][1] == seq[2][1] and seq[0][1].replace(" ", "") in ("2*target_qubit", "target_qubit*2")
